@@ -161,12 +161,19 @@ def _programs_part(g, case, res):
         for tail in itertools.product(ALPHABET, repeat=k):
             progs.append(list(first) + list(tail))
     canon = {}
-    for prog in progs:
+    # a program in which a kind occurs more than once is run twice: with separately built term objects, and with one
+    # and the same object at every occurrence (the user passes a term twice)
+    progs = [(p_, False) for p_ in progs] + [(p_, True) for p_ in progs if len(set(p_)) < len(p_)]
+    for prog, same_object in progs:
         # the mandatory base term is inserted at a position that varies with the program
         pos = (len(prog) + sum(map(len, prog))) % (len(prog) + 1)
         kinds = prog[:pos] + ["base"] + prog[pos:]
         phi = pf.CellVariable(g.mesh, U.generic_array(g.dims, tag=313, signed=True), make_bc(g, setup))
-        terms = [env.term(k) for k in kinds]
+        if same_object:
+            built = {}
+            terms = [built.setdefault(k, env.term(k)) if k in built or kinds.count(k) > 1 else env.term(k) for k in kinds]
+        else:
+            terms = [env.term(k) for k in kinds]
         Mbc, rbc = pf.boundaryConditionsTerm(phi.BCs)
         Mref, rref = assemble(Mbc, rbc, terms)
         kappa = float(np.linalg.cond(Mref, np.inf)) if np.all(np.isfinite(Mref)) else np.inf
@@ -184,7 +191,7 @@ def _programs_part(g, case, res):
             k = "C04:%s:%s" % (kind, g.cls)
             if k not in seen:
                 seen.add(k)
-                F.append({"key": k, "msg": "program %s on %s (%s BCs): %s" % (kinds, U.spec_id(g.spec), setup, msg),
+                F.append({"key": k, "msg": "program %s%s on %s (%s BCs): %s" % (kinds, " (repeated kinds are one object)" if same_object else "", U.spec_id(g.spec), setup, msg),
                           "detail": {"grid": U.spec_id(g.spec), "program": kinds, "setup": setup}})
         if ret is not phi:
             add("returns_other_object", "solvePDE did not return the variable it was given")
@@ -236,7 +243,7 @@ def _programs_part(g, case, res):
                 add("order_dependence", "result differs from the same terms in order %s by %.3g" % (k0, float(np.max(np.abs(val - v0)))))
         else:
             canon[key] = (val, kinds, kappa)
-    res["sample"] = {"grid": U.spec_id(g.spec), "setup": setup, "programs": len(progs), "example": progs[len(progs) // 2]}
+    res["sample"] = {"grid": U.spec_id(g.spec), "setup": setup, "programs": len(progs), "example": progs[len(progs) // 2][0]}
 
 
 def _superposition_part(g, case, res):
